@@ -21,7 +21,7 @@ pub fn def() -> PropDef {
     PropDef {
         id: "C03",
         level: "exploration",
-        rule: "for each validly signed base entry: every single-byte alteration (each byte position of its wire encoding x {xor 0x01, xor 0x80, :=0x00, :=0xff}) that the crate still decodes, the two signatures swapped, signatures taken from another entry (other key / other author / other namespace), a validly signed entry of a foreign namespace, author/namespace ids that are not curve points, timestamps now+10min-1/+0/+1 and the four emptiness combinations; each candidate is presented as a single remote insert and inside a hand-assembled reconciliation message at every position of every part (1..3 parts, 1..2 entries per part) among valid filler entries; the verdict is compared with an independent acceptance predicate; non-trivial = distinct candidates that the crate decodes and that differ from the base entry",
+        rule: "for each validly signed base entry: every single-byte alteration (each byte position of its wire encoding x {xor 0x01, xor 0x80, :=0x00, :=0xff}) that the crate still decodes, the two signatures swapped, signatures taken from another entry (other key / other author / other namespace), a validly signed entry of a foreign namespace, author/namespace ids that are not curve points, timestamps now+10min-1/+0/+1 and the four emptiness combinations; each candidate is presented as a single remote insert to a replica that already holds the untampered original (signatures it has seen before), as a single remote insert and inside a hand-assembled reconciliation message at every position of every part (1..3 parts, 1..2 entries per part) among valid filler entries; the verdict is compared with an independent acceptance predicate; non-trivial = distinct candidates that the crate decodes and that differ from the base entry",
         assumptions: &[
             "ed25519 itself (unforgeability, strictness) is trusted: the predicate asks the same library routine with an independently computed message and keys",
             "candidates are single-fault: one altered byte or one substituted field per entry",
@@ -282,7 +282,10 @@ fn drain(rx: &async_channel::Receiver<Event>) -> Vec<SignedEntry> {
 }
 
 /// Direct path. Returns violations.
-fn present_direct(cand: &SignedEntry, ok: bool) -> Vec<(&'static str, String)> {
+/// `held`: the untampered original the candidate was derived from is already in the replica (a
+/// forgery that reuses signatures the replica has seen before must fare no better than on a
+/// replica that has never seen them).
+fn present_direct(cand: &SignedEntry, ok: bool, held: Option<&SignedEntry>) -> Vec<(&'static str, String)> {
     let ns = ns_id(0);
     let mut bad = vec![];
     let mut sut = Sut::memory_with(&[0]);
@@ -290,6 +293,10 @@ fn present_direct(cand: &SignedEntry, ok: bool) -> Vec<(&'static str, String)> {
     for f in fillers().iter().take(2) {
         let _ = sut.remote(ns, f.clone());
         model.put(f);
+    }
+    if let Some(h) = held {
+        let _ = sut.remote(ns, h.clone());
+        model.put(h);
     }
     let before = full(&mut sut);
     let (tx, rx) = async_channel::unbounded();
@@ -547,7 +554,7 @@ fn check_candidate(
     // (a) direct
     report.count("presentations", 1);
     let _watch = crate::util::watch::enter("candidate as a single remote insert", case("direct", None, false));
-    match catch(|| present_direct(&cand, ok)) {
+    match catch(|| present_direct(&cand, ok, None)) {
         Err(p) => report.violation(
             "no_panic",
             wit("direct"),
@@ -558,6 +565,23 @@ fn check_candidate(
         Ok(bad) => {
             for (o, d) in bad {
                 report.violation(o, wit("direct"), case("direct", None, false), format!("{}: {d}", c.label), ordinal);
+            }
+        }
+    }
+    // (a') direct, to a replica that already holds the untampered original
+    report.count("presentations", 1);
+    let original = base.signed();
+    match catch(|| present_direct(&cand, ok, Some(&original))) {
+        Err(p) => report.violation(
+            "no_panic",
+            wit("direct, original held"),
+            case("direct_held", None, false),
+            format!("panic in insert_remote_entry: {p}"),
+            ordinal,
+        ),
+        Ok(bad) => {
+            for (o, d) in bad {
+                report.violation(o, wit("direct, original held"), case("direct_held", None, false), format!("{} (the replica already holds the original): {d}", c.label), ordinal);
             }
         }
     }
@@ -634,7 +658,11 @@ fn replay(case: &Value) -> anyhow::Result<(bool, String)> {
         case["label"], raw.id.len()
     );
     let res = if path == "direct" {
-        catch(|| present_direct(&cand, ok))
+        catch(|| present_direct(&cand, ok, None))
+    } else if path == "direct_held" {
+        let base: Spec = serde_json::from_value(case["base"].clone())?;
+        let original = base.signed();
+        catch(|| present_direct(&cand, ok, Some(&original)))
     } else {
         let layout: Vec<Vec<bool>> = serde_json::from_value(case["layout"].clone())?;
         let have_local = case["have_local"].as_bool().unwrap_or(true);
